@@ -147,11 +147,27 @@ fn binary_expect(ds: &[GElem], path: &str, out: &mut Map<String, J>) {
     }
 }
 
+/// An element object written as text with its members in a random order (a parsed JSON value
+/// would always list them alphabetically) and possibly conflicting value members.
+pub fn member_order_doc(rng: &mut Rng) -> String {
+            // element objects written as text: the members in every order (a parsed JSON value would
+            // always list them alphabetically), with conflicting value members
+            let vr = *rng.pick(&["OB", "OW", "US", "OF", "UN", "LO", "FD", "AT"]);
+            let value = match vr { "LO" => "[\"x\"]", "AT" => "[\"00100010\"]", _ => "[1,2]" };
+            let mut members = vec![format!("\"vr\":\"{}\"", vr)];
+            let pool = [format!("\"Value\":{}", value), "\"InlineBinary\":\"AQIDBA==\"".to_string(), "\"BulkDataURI\":\"http://x/y\"".to_string()];
+            for m in pool.iter() { if rng.chance(2, 3) { members.push(m.clone()); } }
+            rng.shuffle(&mut members);
+            let tag = *rng.pick(&["00420011", "7FE00010", "00281201", "00100010", "00091001"]);
+            format!("{{\"{}\":{{{}}}}}", tag, members.join(","))
+}
+
 fn mutate_json(rng: &mut Rng, doc: &str) -> String {
     let mut v: J = serde_json::from_str(doc).unwrap_or(json!({}));
     let keys: Vec<String> = v.as_object().map(|o| o.keys().cloned().collect()).unwrap_or_default();
     let pick_key = |rng: &mut Rng| -> Option<String> { if keys.is_empty() { None } else { Some(rng.pick(&keys).clone()) } };
-    match rng.usize(14) {
+    match rng.usize(15) {
+        14 => return member_order_doc(rng),
         0 => { if let Some(k) = pick_key(rng) { v[&k]["InlineBinary"] = json!("AQI="); } }
         1 => { if let Some(k) = pick_key(rng) { v[&k]["Value"] = json!([1, 2]); v[&k]["InlineBinary"] = json!("AQI="); } }
         2 => { if let Some(k) = pick_key(rng) { v[&k]["BulkDataURI"] = json!("http://x/y"); } }
